@@ -35,7 +35,19 @@ pub(crate) fn parse_defchordv2(
                 t: ref exprs,
                 span: _,
             }) if matches!(exprs.first(), Some(SExpr::Atom(a)) if a.t == "include") => {
-                let file_name = exprs[1].atom(s.vars()).unwrap();
+                let file_name = match exprs.get(1).and_then(|e| e.atom(s.vars())) {
+                    Some(f) if exprs.len() == 2 => f,
+                    _ => {
+                        return Ok::<_, ParseError>(vec![Err(anyhow_expr!(
+                            &chunk[0],
+                            "include in defchordsv2 expects exactly one file name"
+                        ))])
+                    }
+                };
+                let chord_definitions = match parse_chord_file(file_name) {
+                    Ok(defs) => defs,
+                    Err(e) => return Ok(vec![Err(e)]),
+                };
                 let chord_translation = ChordTranslation::create(
                     file_name,
                     &chunk[2],
@@ -43,7 +55,6 @@ pub(crate) fn parse_defchordv2(
                     &chunk[4],
                     &s.layers[0][0],
                 );
-                let chord_definitions = parse_chord_file(file_name).unwrap();
                 let processed = chord_definitions.iter().map(|chord_def| {
                     let chunk = chord_translation.translate_chord(chord_def);
                     parse_single_chord(&chunk, s, &mut all_participating_key_sets)
@@ -192,9 +203,8 @@ fn parse_disabled_layers(disabled_layers: &SExpr, s: &ParserState) -> Result<Vec
 
 fn parse_chord_file(file_name: &str) -> Result<Vec<ChordDefinition>> {
     let input_data = fs::read_to_string(file_name)
-        .unwrap_or_else(|_| panic!("Unable to read file {}", file_name));
-    let parsed_chords = parse_input(&input_data).unwrap();
-    Ok(parsed_chords)
+        .map_err(|e| anyhow!("Unable to read chords file {file_name}: {e}"))?;
+    parse_input(&input_data)
 }
 
 fn parse_input(input: &str) -> Result<Vec<ChordDefinition>> {
@@ -207,8 +217,8 @@ fn parse_input(input: &str) -> Result<Vec<ChordDefinition>> {
                 "Each line needs to have an action separated by a tab character, got '{}'",
                 line
             );
-            let keys = caps.next().expect(&error_message);
-            let action = caps.next().expect(&error_message);
+            let keys = caps.next().ok_or_else(|| anyhow!("{error_message}"))?;
+            let action = caps.next().ok_or_else(|| anyhow!("{error_message}"))?;
             Ok(ChordDefinition {
                 keys: keys.to_string(),
                 action: action.to_string(),
